@@ -22,6 +22,8 @@ pub struct Specimen {
     /// file names (entry point first) with their pristine bytes and decoded structure map
     pub files: Vec<(String, Vec<u8>, FileView)>,
     pub plan: Plan,
+    /// number of contents of the main content pack
+    pub content_count: usize,
     pub pristine: Dump,
     pub small: bool,
 }
@@ -92,7 +94,8 @@ fn medium_case(rng: &mut Rng) -> ContCase {
 
 fn large_table_case(rng: &mut Rng) -> ContCase {
     // 17 000 contents: the content table (4 bytes each) exceeds 64 KiB, five clusters closed by the blob-count limit
-    let items: Vec<Item> = (0..17_000).map(|_| Item { len: 2, ent: Ent::High, hint: Hint::No, src: Src::Mem, dup_of: None, cat_of: None }).collect();
+    // (sizes vary from one content to the next: an address resolving to a neighbouring blob shows in the size it reports)
+    let items: Vec<Item> = (0..17_000usize).map(|i| Item { len: 1 + (i * 7) % 5, ent: Ent::High, hint: Hint::No, src: Src::Mem, dup_of: None, cat_of: None }).collect();
     let content = ContentCase { seed: rng.next(), comp: Comp::None, cached: false, items };
     let files = StoreDef {
         n: 12,
@@ -169,6 +172,9 @@ pub fn build_specimen(name: &str, case: &ContCase, small: bool, dir: &Path) -> R
         files.push((f.file_name().unwrap().to_string_lossy().into_owned(), bytes, view));
     }
     let mut plan = plan_for(case, Some(&created));
+    // the pristine dump always covers every content (damaged dumps may cover a sample, see below)
+    let pristine = dump_container(&created.path, &plan);
+    let content_count = case.content.expected_count();
     if plan.addrs.len() > 4000 {
         // a very long content table: every eighth content, plus the first and last hundred (a dump stays within tens of ms)
         let n = plan.addrs.len();
@@ -178,8 +184,7 @@ pub fn build_specimen(name: &str, case: &ContCase, small: bool, dir: &Path) -> R
             i % 8 == 1 || i <= 100 || i + 100 > n
         });
     }
-    let pristine = dump_container(&created.path, &plan);
-    Ok(Specimen { name: name.to_string(), case: case.clone(), dir: dir.to_path_buf(), files, plan, pristine, small })
+    Ok(Specimen { name: name.to_string(), case: case.clone(), dir: dir.to_path_buf(), files, plan, pristine, small, content_count })
 }
 
 pub fn specimens(seed: u64, work: &Path) -> &'static Vec<Specimen> {
@@ -641,6 +646,24 @@ pub fn run_for(desc: &Value, ctx: &Ctx, oracle: Oracle) -> CaseOut {
         &refit_plan
     } else {
         &s.plan
+    };
+    // the specimen with the very long content table is dumped on a sample of its contents: always include the content whose
+    // table entry holds the first altered byte (4 bytes per content), so that what the reader makes of that entry is observed
+    let aimed_plan;
+    let plan = if s.plan.addrs.len() < s.content_count && structure == "content table" && !matches!(d, Damage::Refit { .. }) {
+        let mut p = plan.clone();
+        if let (Some(pos), Some(sp)) = (changed.first(), view.spans.iter().find(|sp| sp.name == "content table" && changed.first().map(|c| sp.start <= *c && *c < sp.end).unwrap_or(false))) {
+            let idx = ((pos - sp.start) / 4) as u32;
+            for i in [idx.saturating_sub(1), idx, idx + 1] {
+                if (i as usize) < s.content_count && !p.addrs.contains(&(1, i)) {
+                    p.addrs.push((1, i));
+                }
+            }
+        }
+        aimed_plan = p;
+        &aimed_plan
+    } else {
+        plan
     };
     let got = dump_container(&dir.join("c.jbk"), plan);
     out.obs.add("items_dumped", got.len() as u64);
